@@ -1,6 +1,6 @@
 """C11 — close semantics and shared-handle lifecycle."""
 from rl import (method_role, entry_methods, loc_endswith, path_cond, trace_summary, where, const_of, fmt_val, fmt_loc, fields_of)
-from common import scan_field_writes, scan_calls, scan_aggregates, contains, poll_variant, waker_escapes
+from common import scan_field_writes, scan_calls, scan_aggregates, const_of_rvalue, contains, poll_variant, waker_escapes, entered_unqueued
 from engine import NONE
 from lib import CheckerError
 
@@ -78,7 +78,7 @@ def run(C, R):
             for fn, s in scan_field_writes(F, flag, mod + '::'):
                 nw += 1
                 rv = s['rv']
-                val = rv.get('use', {}).get('int') if 'use' in rv else None
+                val = const_of_rvalue(fn, rv)
                 if val == 1 and fn.get('impl_adt') == st:
                     R.ok('C11.R1', '%s|%s:=true' % (fn['path'], flag))
                 else:
@@ -170,7 +170,9 @@ def run(C, R):
                         elif e['k'] == 'write' and loc_endswith(e['loc'], 'value') and e['loc'][0] == ('P', 'self') \
                                 and e['val'][0] == 'agg' and e['val'][2] == 'Some':
                             accepts.append((e, 'store'))
-                        elif e['k'] == 'qop' and e['op'] == 'add_front' and loc_endswith(e['queue'], 'send_waiters'):
+                        elif e['k'] == 'qop' and e['op'] == 'add_front' and loc_endswith(e['queue'], 'send_waiters') \
+                                and (e['node'][0][0] != 'P' or entered_unqueued(path, e['node'][:1], 'Unregistered')):
+                            # (re-inserting an already parked sender accepts nothing new: C09.R7 judges that)
                             accepts.append((e, 'park'))
                         elif e['k'] == 'write' and loc_endswith(e['loc'], 'state_id', '0') and e['loc'][0] == ('P', 'self'):
                             accepts.append((e, 'state_id'))
